@@ -1,5 +1,8 @@
 """C13 — PANOC-OCP 'Converged' certifies input-constrained stationarity of the OCP.
-proof: Properties_C13.v (PanocOcp.v + the shared kernels SolverKernels/Prox/Ocp + the GENERATED gen/StopChain.stop_status_ocp);
+proof: Properties_C13.v (PanocOcp.v + the shared kernels SolverKernels/Prox/Ocp + the GENERATED gen/StopChain.stop_status_ocp); end to end
+       C13_panoc_ocp_converged_is_stationary (PanocOcpE2E.v): the whole-loop model PanocOcpLoop.panoc_ocp with its sweep oracles
+       instantiated by C12's evaluator Ocp.forward / Ocp.backward — Converged => returned inputs in U, documented residual with the
+       gradient of the OCP cost (C12's adjoint identity) <= tolerance, write_solution relations;
 correspondence: teacher-forced records of the real PANOCOCPSolver (drv_C13) vs Corr_Run.chkrun (step, envelope, QUB, line search,
                 step-size halving) and Corr_C13.chk13 (criterion switch, exit status, free-index count, write_solution, returned u);
 oracle (independent: own roll-out of the problem family + complex-step gradient, never the solver's gradient): box membership of the
@@ -466,7 +469,11 @@ def run(ctx):
                         "the chain rule is assumed (C12): A_k, B_k, q_k, r_k are the derivatives of the user's functions",
                         "std::fmax/fmin in the OCP projected step are modelled by the cwiseMax/cwiseMin kernels of Prox.v (equal when no operand is NaN)",
                         "the criteria are defined on the pair (u_k, û_k); the returned point is û_k: the residual AT û_k is measured and reported, not required",
-                        "Gauss-Newton / L-BFGS directions are oracles: nothing about them is needed for what Converged certifies"]
+                        "Gauss-Newton / L-BFGS directions are oracles: nothing about them is needed for what Converged certifies",
+                        "C13_panoc_ocp_converged_is_stationary (C13 o C12): hypotheses = sizes of what the problem functions / Jacobians return and of x0, U, u, D, D_N, y, mu; "
+                        "U non-empty; mu > 0; Lgamma_factor, L_min, L_max > 0; direction oracles return N*nu-vectors. The gradient is characterised as C12 does "
+                        "(pairing with every perturbation = first-order change along the linearised roll-out); that A_k, B_k, q_k, r_k are the true derivatives is assumed as in C12",
+                        "the instance of that theorem's sweeps (PanocOcpE2E.e_bwd / e_cvals on the drv_ocp family) is what the attached whole-run correspondence executes against the solver"]
     p = subprocess.run([sys.executable, os.path.join(VERIF, "translate", "gen_stopchain.py")], capture_output=True, text=True)
     ctx.coverage["translator_stopchain"] = p.stdout.strip()[-200:]
     if p.returncode != 0:
